@@ -10,7 +10,8 @@ CLAIMED = {
                 "recursive layers run on fuel whose exhaustion is a Panic, so totality is a theorem: tokenise_total, "
                 "lex_fuel_irrelevant, lex_step_progress (the loop cannot spin), parse_total, into_identifier_total (fix D5), "
                 "parse_key_total, parse_identifier_total and load_rule_total hold for ALL strings, token lists and YAML values of "
-                "any depth; the malformed stream (all strings over a 19-character alphabet up to length 2-3, random longer "
+                "any depth; C04_minus: a token that starts with `-` is the load error InvalidNum and no text yields a negative "
+                "integer token (leading_minus_rejected, integer_tokens_nonneg); the malformed stream (all strings over a 19-character alphabet up to length 2-3, random longer "
                 "ones, random YAML shapes in every position, nesting 64, raw non-YAML text) is run against the crate under "
                 "catch_unwind and against the model.",
         "note": TB + "Not modelled: serde_yaml's text->Value layer and serde's derived field visitor for non-string top-level keys (crate-only no-panic runs cover them); native stack exhaustion is out of scope (depth <= 64).",
